@@ -78,6 +78,53 @@ def parse_out(line):
     return (texts if len(texts) == 4 else None), vals
 
 
+def run_slice(exe, lines, budget):
+    """line-protocol harness on one slice with a time budget; a sanitizer abort marks its line CRASH
+    and the harness is restarted on the rest; lines not answered within the budget stay None.
+    returns (outputs aligned with lines, {index: stderr}, timed_out?)"""
+    import time
+    out = [None] * len(lines)
+    crashes = {}
+    start = 0
+    t_end = time.time() + budget
+    env = vv.san_env()
+    restarts = 0
+    while start < len(lines):
+        left = t_end - time.time()
+        if left <= 0:
+            return out, crashes, True
+        try:
+            p = subprocess.run([exe], input="\n".join(lines[start:]) + "\n", env=env, timeout=left,
+                               stdout=subprocess.PIPE, stderr=subprocess.PIPE, text=True, errors="replace")
+            got, rc, err = p.stdout.splitlines(), p.returncode, p.stderr
+        except subprocess.TimeoutExpired as e:
+            so = e.stdout or b""
+            if isinstance(so, bytes):
+                so = so.decode(errors="replace")
+            got = so.splitlines()
+            if so and not so.endswith("\n"):
+                got = got[:-1]
+            for i, l in enumerate(got[:len(lines) - start]):
+                out[start + i] = l
+            return out, crashes, True
+        n = min(len(got), len(lines) - start)
+        for i in range(n):
+            out[start + i] = got[i]
+        if start + n >= len(lines):
+            if rc != 0:
+                crashes[len(lines) - 1] = err
+                out[len(lines) - 1] = "CRASH-AT-EXIT " + (out[len(lines) - 1] or "")
+            break
+        k = start + n
+        out[k] = "CRASH rc=%d" % rc
+        crashes[k] = err
+        start = k + 1
+        restarts += 1
+        if restarts > 50:
+            break
+    return out, crashes, False
+
+
 def compile_batch(lines, prelude, compiler, std, suffix):
     """-fsyntax-only over one function per line; returns {case index: message}"""
     d = tempfile.mkdtemp(prefix="c19-")
@@ -257,7 +304,13 @@ def run_(ck):
         cases = []
         cases += g.pair_cases()
         cases += g.untyped_pair_cases()
-        cases += g.random_cases(6000 if ck.thorough else 600, depth=6 if ck.thorough else 4)
+        cases += g.string_cases()
+        cases += g.rowshare_cases(3000 if ck.thorough else 500, depth=6 if ck.thorough else 4)
+        rc_ = g.random_cases(6000 if ck.thorough else 600, depth=6 if ck.thorough else 4)
+        for i, c in enumerate(rc_):
+            if i % 2:
+                c.compact_rows()
+        cases += rc_
         cases += g.user_cases(300 if ck.thorough else 60)
         cases += g.malformed_cases()
         cases += g.quote_cases()
@@ -266,22 +319,36 @@ def run_(ck):
 
     hl = [c.harness_line() for c in cases]
     ml = [c.model_line(class_index) for c in cases]
-    # the extracted model works on lists of Z: run it in parallel slices, next to the harness
-    nchunk = max(1, min(8, len(ml) // 200))
-    step = (len(ml) + nchunk - 1) // nchunk
-    with concurrent.futures.ThreadPoolExecutor(nchunk + 1) as ex:
-        fh = ex.submit(pc.run_harness_resilient, harness, hl)
-        fm = [ex.submit(vv.run_lines, model, "\n".join(ml[i:i + step]) + "\n") for i in range(0, len(ml), step)]
-        hout, crashes = fh.result()
-        mout = []
-        for fut in fm:
+    # harness and extracted model run in parallel on interleaved slices (slice i = lines i, i+n, ...), so
+    # that every stream progresses evenly; the harness has a time budget: a tree that prints very slowly
+    # must not hide the cases that follow -- unanswered cases are skipped and counted, never an alarm
+    nsl = max(1, min(8, len(ml) // 200))
+    budget = 600 if ck.thorough else 75
+    with concurrent.futures.ThreadPoolExecutor(2 * nsl) as ex:
+        fh = [ex.submit(run_slice, harness, hl[i::nsl], budget) for i in range(nsl)]
+        fm = [ex.submit(vv.run_lines, model, "\n".join(ml[i::nsl]) + "\n") for i in range(nsl)]
+        hout = [None] * len(cases)
+        mout = [None] * len(cases)
+        crashes = {}
+        timed_out = False
+        for i, fut in enumerate(fh):
+            o, cr, to = fut.result()
+            timed_out = timed_out or to
+            for j, l in enumerate(o):
+                hout[i + j * nsl] = l
+            for j, e in cr.items():
+                crashes[i + j * nsl] = e
+        for i, fut in enumerate(fm):
             rc, o, merr = fut.result()
-            if rc != 0:
-                raise vv.BuildError("model driver failed: rc=%s %s" % (rc, merr[:500]))
-            mout += o
-    if len(mout) != len(cases):
-        raise vv.BuildError("model driver answered %d of %d cases" % (len(mout), len(cases)))
-
+            if rc != 0 or len(o) != len(ml[i::nsl]):
+                raise vv.BuildError("model driver failed: rc=%s answered %d of %d: %s" % (rc, len(o), len(ml[i::nsl]), merr[:500]))
+            for j, l in enumerate(o):
+                mout[i + j * nsl] = l
+    skipped = len([1 for x in hout if x is None])
+    if skipped:
+        ck.notes.append("the harness did not answer %d of %d cases within its %d s budget (printing is much slower "
+                        "than on the reference tree); those cases were skipped" % (skipped, len(cases), budget))
+    ck.coverage["cases_not_answered_in_time"] = skipped
     lap("generate + run harness and model")
     failures = []     # (fmt, kind, case index, message)
     reader_bad = []
@@ -290,10 +357,13 @@ def run_(ck):
     hist = {}
     pairs = set()
     for k, c in enumerate(cases):
+        ho = hout[k]
+        if ho is None:
+            impl.append(None)
+            continue
         ck.count()
         hist[c.tag] = hist.get(c.tag, 0) + 1
-        ho = hout[k]
-        if ho is None or ho.startswith("CRASH"):
+        if ho.startswith("CRASH"):
             impl.append(None)
             ck.add_violation("print:undefined-behaviour", "printing the individual aborts under the sanitizers",
                              {"case": c.to_json(), "impl": ho, "sanitizer": crashes.get(k, "")[-1500:]})
@@ -431,7 +501,9 @@ def run_(ck):
     ck.coverage["parent_child_pairs"] = len(pairs)
     return ck.finish(
         rule="streams: every typed (parent instance, argument, child instance) triple; every untyped parent x argument x "
-             "child class; seeded random typed genomes (shared sub-expressions, negative / fractional / boundary "
+             "child class; every string-taking argument x strings of regex / format / placeholder look-alikes ($1 $& $$ "
+             "% ' ` digits); multi-category genomes whose active tree reaches the same row in two categories with heavy "
+             "sharing (genes placed by row in the private matrix); seeded random typed genomes (shared sub-expressions, negative / fractional / boundary "
              "constants, nested conditionals, strings); base-class displays with up to 12 arguments; terminals "
              "containing placeholders (malformed); real-valued programs with exactly printable constants and 4 input "
              "vectors each.  non-trivial = distinct (symbols along the active tree, printed C text)")
